@@ -1,5 +1,5 @@
 """Codec-level properties: C01 C02 C07 C08 C09 C10 C11 C12 C14 C15 C16 C17 C18 C20 (generators and probes)."""
-import os, json, math
+import os, re, json, math
 from .common import *
 from . import genframe as gf
 from . import valtext as vt
@@ -1909,11 +1909,11 @@ class C20(Prop):
             if num in g.layouts:
                 hdr = vt.parse_msg(g.gen_msg(num, "valid"))[2][1][:-1]
                 ents = [("T", [("i", 3), ("G", b0, c0), ("f", f32_bits(0.25))]) for b0, c0, _ in g.ssr[str(num)]]
-                ops.append("SERDE " + vt.show_msg(("Msg", num, ("T", hdr + [("L", ents)]))))
+                ops.append("SERDE " + vt.show_msg(("Msg", num, ("T", hdr + [("L", ents)]))) + " #allsig")
         if 1230 in g.layouts:
             hdr = vt.parse_msg(g.gen_msg(1230, "valid"))[2][1][:-1]
             ents = [("T", [("G", b0, c0), ("f", f32_bits(0.5))]) for b0, c0 in ((1, 67), (1, 80), (2, 67), (2, 80))]
-            ops.append("SERDE " + vt.show_msg(("Msg", 1230, ("T", hdr + [("L", ents)]))))
+            ops.append("SERDE " + vt.show_msg(("Msg", 1230, ("T", hdr + [("L", ents)]))) + " #allsig")
         # frames built byte by byte (not through any constructor): text of 250..255 bytes, descriptors at capacity
         if 1029 in g.layouts:
             for cps in ([0x6e2c] * 85, [0x44f] * 125 + [49, 50, 51, 52, 53], [97] * 127, [0x6e2c] * 84 + [0xe9, 97], [0x1f600] * 63 + [97, 98, 99]):
@@ -1936,6 +1936,9 @@ class C20(Prop):
     def probe(self, op, res, ctx):
         if res.startswith("PANIC"):
             return "serde round trip panicked"
+        if op.endswith("#allsig") and not res.startswith("EQ true"):
+            # the harness itself builds the message through Deserialize: a refusal here is a refusal of a valid message
+            return "a message whose signal identifiers are all in its own table does not pass through serde: %s" % res[:70]
         if res.startswith("EQ "):
             t = res.split(" ")
             if t[3] == "true" and t[1] != "true":
@@ -1989,6 +1992,10 @@ class C19(Prop):
         for n in (0, 1000, 1018, 1028, 4095):
             ops.append("DECODE %s" % hx(frame_of_payload(n, rng, 20, "rand")))
         ops.append("DECODE %s" % hx(mkframe(b"")))
+        # the shortest frames that carry a number (2 and 3 payload bytes), for every supported number and some others
+        for n in list(g.numbers) + [0, 1, 1000, 1028, 4094, 4095]:
+            for extra in (b"", b"\x00"):
+                ops.append("DECODE %s" % hx(mkframe(bytes([(n >> 4) & 0xFF, (n & 15) << 4]) + extra)))
         return ops
 
     def probes(self, ops, rel, chk, ctx):
@@ -2018,6 +2025,23 @@ class C19(Prop):
                     suspects.add(mod_)
         for h in t["hand_mods"]:
             pass
+        # message types on whose frames the model (regenerated tables) and the full build disagree: the single-feature builds of
+        # exactly those types are compared first (a constant or table that depends on the feature selection shows there)
+        model = getattr(ctx, "model", None)
+        if model:
+            for o, m_, c_ in zip(ops, model, chk):
+                if o.startswith("DECODE ") and m_.split(" ")[0] != c_.split(" ")[0]:
+                    d = unhex(o.split(" ")[1])
+                    if len(d) >= 5 and (((d[1] & 3) << 8) | d[2]) >= 2:
+                        suspects.add("msg%d" % ((d[3] << 4) | (d[4] >> 4)))
+        # literal feature names outside the module that gates the hand-written field codecs (everything else is generated by the
+        # message! / include_msg! tables): an irregular cfg, its features are suspects too
+        import glob as _glob
+        for fn in _glob.glob(os.path.join(REPO, "src", "**", "*.rs"), recursive=True):
+            if fn.endswith(os.path.join("df", "dfs.rs")):
+                continue
+            for m_ in re.findall(r'feature\s*=\s*"(msg\d+)"', open(fn).read()):
+                suspects.add(m_)
         suspects = sorted(x for x in suspects if x in feats)
         singles = feats if ctx.tier == "thorough" else sorted(set(must + rng.sample(feats, 2) + suspects))
         tdir = os.path.join(CACHE, "target-feat")
